@@ -50,9 +50,9 @@ def _init_worker(repo):
 
 def _work(chunk):
     out = []
-    for calls, fault, what in chunk:
+    for calls, fault, what, ovar in chunk:
         try:
-            txt, d = TC.run_api_case(_ENV, list(calls), fault, what)
+            txt, d = TC.run_api_case(_ENV, list(calls), fault, what, ovar=ovar)
             out.append((txt, {"per_call": d["per_call"], "res": d["res"], "futs": d["futs"],
                               "reqs": d["reqs"], "views": d["views"]}))
         except Exception as ex:  # noqa  (SimBug and friends: harness trouble)
@@ -64,8 +64,31 @@ def fault_tok(f):
     return "-" if f is None else f"{f[0]}:{f[1]}:{f[2]}"
 
 
+MODEL_CALL = {"t0": "s0", "t1": "s1"}      # send_batch of one record = send; create_batch (k) has no effect
+
+
 def model_line(calls, fault):
-    return f"c16 run {fault_tok(fault)} {','.join(calls) if calls else '-'}"
+    mc = [MODEL_CALL.get(c, c) for c in calls if c != "k"]
+    return f"c16 run {fault_tok(fault)} {','.join(mc) if mc else '-'}"
+
+
+def strip_k(calls, impl_txt):
+    """drop the results of the create_batch() calls (they must have returned normally)"""
+    if "k" not in calls or impl_txt.startswith(("hang:", "harness-exception")):
+        return impl_txt
+    f = fields(impl_txt)
+    res = f.get("res", "-").split(",")
+    if len(res) != len(calls):
+        return impl_txt
+    keep = []
+    for c, r in zip(calls, res):
+        if c == "k":
+            if r != "ok":
+                return impl_txt        # create_batch() raised: left in, differs from the model
+            continue
+        keep.append(r)
+    f["res"] = ",".join(keep) if keep else "-"
+    return " ".join(f"{k}={v}" for k, v in f.items())
 
 
 def fields(txt):
@@ -138,6 +161,11 @@ def holds(calls, obs, order_ok):
     fatal_seen = False
     for i, (call, r) in enumerate(zip(calls, res)):
         sent = per_call.get(i, per_call.get(str(i), []))
+        if call == "k":
+            if r != "ok" or sent:
+                return ("c16:create-batch-effect", f"create_batch() (call #{i}) raised or sent {sent}")
+            continue
+        call = MODEL_CALL.get(call, call)
         if fatal_seen and call != "r":
             if call != "e" and r == "ok":
                 return ("c16:fatal-not-final", f"call #{i} {call} returned normally after a fatal error")
@@ -200,6 +228,10 @@ def holds(calls, obs, order_ok):
         if opn:
             return ("c16:transaction-left-open", f"commit / abort returned but records {opn} are still undecided "
                     "(no EndTxn reached the coordinator): the transaction hangs, the next COMMIT marker decides them")
+    plain = [r for r in obs.get("reqs", []) if r.startswith("PN")]
+    if plain:
+        return ("c16:batch-without-transactional-flag",
+                f"a transactional producer wrote a batch without the transactional flag: {plain[:3]}")
     if not order_ok:
         return ("c16:protocol-order", "the request log violates the transactional protocol order (Lean orderOk)")
     return None
@@ -213,6 +245,8 @@ def expand_reqs(reqs):
         if head.startswith("AP"):
             for p in head[2:].split("+"):
                 out.append(f"AP{p}:{code}")
+        elif head.startswith("PN"):
+            continue
         elif head.startswith("PR"):
             p, recs = head[2:].split(".", 1)
             for rec in recs.split("+"):
@@ -282,6 +316,7 @@ def run(ctx):
     if ctx.replay_cases is not None:
         cases = [(tuple(c["calls"]), tuple(c["fault"]) if c.get("fault") else None) for c in ctx.replay_cases]
         whats = [c.get("fault_as", "-") for c in ctx.replay_cases]
+        ovars = [int(c.get("ovar", 0)) for c in ctx.replay_cases]
         n_seqs = len(cases)
     else:
         corpus = []
@@ -297,13 +332,15 @@ def run(ctx):
             whats.append("-" if f is None else TC.choose_fault(f, random.Random(f"{ctx.seed}:C16:{idx}")))
         cases = [(c[0], c[1]) for c in corpus] + cases
         whats = [c[2] for c in corpus] + whats
+        # sizes of the offsets maps (1, 2, 3 partitions) rotate with the case index
+        ovars = [k % 3 for k in range(len(cases))]
         ctx.coverage["corpus_cases"] = len(corpus)
     ctx.log(f"{n_seqs} call sequences, {len(cases)} cases (sequence x fault)")
     lines = [model_line(s, f) for s, f in cases]
     model = drv(lines)
     # ---- the implementation
     nproc = min(16 if ctx.thorough else 8, os.cpu_count() or 1)
-    work = [(s, f, w) for (s, f), w in zip(cases, whats)]
+    work = [(s, f, w, ov) for ((s, f), w), ov in zip(zip(cases, whats), ovars)]
     chunks = [work[i:i + 200] for i in range(0, len(work), 200)]
     if len(work) < 400 or nproc == 1:
         _init_worker(ctx.repo)
@@ -338,7 +375,7 @@ def run(ctx):
         hist_fault[k] = hist_fault.get(k, 0) + 1
         stt = fields(txt).get("st", "?")
         hist_state[stt] = hist_state.get(stt, 0) + 1
-        if normalise(m, txt) != m:
+        if normalise(m, strip_k(s, txt)) != m:
             mism.append(i)
     ctx.coverage["result_distribution"] = hist_res
     ctx.coverage["fault_distribution"] = hist_fault
@@ -359,7 +396,7 @@ def run(ctx):
     for i in mism:
         s, f = cases[i]
         txt, obs = impl[i]
-        meta = {"calls": list(s), "fault": list(f) if f else None, "fault_as": whats[i]}
+        meta = {"calls": list(s), "fault": list(f) if f else None, "fault_as": whats[i], "ovar": ovars[i]}
         if txt.startswith("hang:"):
             sig, why = "c16:hang", f"the producer hangs: {txt[:200]}"
         elif i in order_of:
@@ -386,5 +423,6 @@ def run(ctx):
             ctx.violation("c16:api-outcome-differs",
                           f"the producer's observable behaviour differs from the required one: calls {','.join(s)} "
                           f"fault {fault_tok(f)} ({whats[i]}): impl {impl[i][0][:300]} required {model[i][:300]}",
-                          {"cases": [{"calls": list(s), "fault": list(f) if f else None, "fault_as": whats[i]}],
+                          {"cases": [{"calls": list(s), "fault": list(f) if f else None, "fault_as": whats[i],
+                                      "ovar": ovars[i]}],
                            "observed": impl[i][0], "required": model[i]})
